@@ -163,8 +163,9 @@ def _framing_concrete(pages, exp):
     return None
 
 
-def h_lookup(ta: int, tb: int, ra: int, rb: int, rc: int, order: int, text_a: str, text_b: str, text_c: str, redirect: bool):
-    """several revisions of one title in any order: lookup by revid, by title (newest stored revision), through a redirect"""
+def h_lookup(ta: int, tb: int, ra: int, rb: int, rc: int, order: int, text_a: str, text_b: str, text_c: str, redirect: bool, stub: bool = False):
+    """several revisions of one title in any order: lookup by revid, by title (newest stored revision), through a redirect
+    (whose source may itself be stored as a page: the #REDIRECT stub revision fetched by revision id)"""
     ta = choose(ta, len(TITLES))
     tb = (ta + 1) % len(TITLES)
     IDS = [9, 10, 101]  # concrete ids (simplejson is C) of different digit counts; every order type of three distinct ids
@@ -174,6 +175,9 @@ def h_lookup(ta: int, tb: int, ra: int, rb: int, rc: int, order: int, text_a: st
     text_a, text_b, text_c = pinned(text_a), "", "\n"
     A, B = TITLES[ta], TITLES[tb]
     pages = [(A, 0, ra, "A1" + text_a), (A, 0, rb, "A2" + text_b), (B, 0, rc, "B" + text_c)]
+    if stub:
+        assume(redirect)
+        pages[2] = ("Old name", 0, rc, "#REDIRECT [[%s]]" % A)
     perm = [[0, 1, 2], [0, 2, 1], [1, 0, 2], [1, 2, 0], [2, 0, 1], [2, 1, 0]][choose(order, 6)]
     pages = [pages[x] for x in perm]
     reds = {"Old name": A} if redirect else {}
@@ -184,8 +188,10 @@ def _lookup_concrete(pages, reds, redirect, A, newest):
     nw, content = write_and_read(pages, [False, False, False], reds)
     for title, ns, revid, text in pages:
         p = nw.get_page(title, revid)
+        if title in reds:
+            text = newest  # a stored #REDIRECT stub resolves to its target page, also when asked for by revision id (by design)
         if p is None or p.rawtext != text:
-            return {"sig": "lookup|by-revid", "pages": [[t, r, x] for t, _, r, x in pages], "asked": [title, revid], "got": None if p is None else p.rawtext}
+            return {"sig": "lookup|by-revid", "pages": [[t, r, x] for t, _, r, x in pages], "redirects": reds, "target": A, "asked": [title, revid], "got": None if p is None else p.rawtext}
     p = nw.get_page(A)
     if p is None or p.rawtext != newest:
         return {"sig": "lookup|by-title-newest", "pages": [[t, r, x] for t, _, r, x in pages], "asked": A, "got": None if p is None else p.rawtext, "wanted": newest}
@@ -193,9 +199,10 @@ def _lookup_concrete(pages, reds, redirect, A, newest):
     if p is None or p.rawtext != newest:
         return {"sig": "lookup|by-spelling", "pages": [[t, r, x] for t, _, r, x in pages], "asked": A.replace(" ", "_"), "got": None if p is None else p.rawtext}
     if redirect:
-        p = nw.get_page("Old name")
-        if p is None or p.rawtext != newest:
-            return {"sig": "lookup|redirect", "pages": [[t, r, x] for t, _, r, x in pages], "got": None if p is None else p.rawtext}
+        for asked, p in (("Old name", nw.get_page("Old name")), ("old_name", nw.normalize_and_get_page("old_name", 0))):
+            if p is None or p.rawtext != newest:
+                return {"sig": "lookup|redirect", "pages": [[t, r, x] for t, _, r, x in pages], "redirects": reds, "target": A, "asked": asked,
+                        "got": None if p is None else p.rawtext, "wanted": newest}
     return None
 
 
@@ -292,7 +299,7 @@ def build(tier: str) -> CheckSpec:
             cubes.append(Cube(f"framing B: text ends with separator[0:{i}], next text starts with separator[i:j]", h_framing, fp,
                               {"family": "B", "a_i": 0, "b_l": i}, timeout=tmo, per_path_timeout=30, group="framing"))
     cubes.append(Cube("lookup: revisions, order, redirect", h_lookup,
-                      {"ta": int, "tb": int, "ra": int, "rb": int, "rc": int, "order": int, "text_a": str, "text_b": str, "text_c": str, "redirect": bool},
+                      {"ta": int, "tb": int, "ra": int, "rb": int, "rc": int, "order": int, "text_a": str, "text_b": str, "text_c": str, "redirect": bool, "stub": bool},
                       {}, timeout=tmo, per_path_timeout=30, group="lookup"))
     cubes.append(Cube("fs_escape decodable", h_escape, {"t": str}, {"maxlen": 3 if q else 5}, timeout=tmo, group="fs_escape"))
     cubes.append(Cube("image spellings", h_image_spelling, {"ns": int, "cap": bool, "sep": int, "name": str}, {}, timeout=tmo, group="image"))
@@ -304,7 +311,7 @@ def build(tier: str) -> CheckSpec:
         functions=[fetch.FsOutput.write_pages, fetch.FsOutput.write_expanded_page, nuwiki.NuWiki._read_revisions, nuwiki.NuWiki._get_page,
                    nuwiki.NuWiki.normalize_and_get_page, unorganized.fs_escape, unorganized.python2sort, nshandling.NsHandler.get_fqname],
         bounds={"framing texts": "family A: first text = separator[i:j] + filler for all 0<=i<=j<=12; family B: first text = filler + separator[0:l], second text = separator[i:j] + filler; filler in {'', 'x', newline, JSON-looking, 'l1 CR LF l2', 't CR'}; both writers, both id orders; texts containing the whole separator excluded",
-                "lookup": "3 pages: two revisions of one title and another title out of %r, revision ids: every order type of three distinct ids, all 6 write orders, texts <= 2 chars, optional redirect" % TITLES,
+                "lookup": "3 pages: two revisions of one title and another title out of %r, revision ids: every order type of three distinct ids, all 6 write orders, texts <= 2 chars, optional redirect whose source is stored as a #REDIRECT stub page or not" % TITLES,
                 "fs_escape": "titles <= %d chars over %r" % (3 if q else 5, ESC_ALPHABET), "image spellings": "6 namespace spellings x first-letter case x 3 separators x names <= 3 chars"},
         stubs=["FsOutput / NuWiki instances built with __new__; revisions file = in-memory buffer served through nuwiki.open / nuwiki.os.path.exists stubs (zip, sqlite and the directory tree are not executed)"],
         assumptions=["boundary collisions of the record format can only involve fragments of the separator itself, so texts are generated as separator fragments around a filler (pinned: enumerated by the solver)",
@@ -344,7 +351,7 @@ def replay(cand: dict) -> dict:
             else:
                 out.write_pages({"pages": {"1": {"title": title, "ns": 0, "revisions": [{"*": text, "revid": revid}]}}})
         out.write_siteinfo(siteinfo.get_siteinfo("en"))
-        out.write_redirects({"Old name": pages[0][0]} if d["sig"] == "lookup|redirect" else {})
+        out.write_redirects(d.get("redirects") or {})
         out.close()
         for db in ("authors", "html", "imageinfo"):
             getattr(out, db).close()
@@ -354,8 +361,11 @@ def replay(cand: dict) -> dict:
             return {"reproduced": True, "signature": "C14|framing|boundary",
                     "what": f"pages {[(t, x) for t, r, x in pages]!r} written by FsOutput make NuWiki(path) raise {type(e).__name__}: {e}"}
         bad = []
+        reds = d.get("redirects") or {}
         for title, revid, text in pages:
             p = nw.get_page(title, revid)
+            if title in reds:  # a stored #REDIRECT stub resolves to its target, also by revision id
+                text = max((r, t, x) for t, r, x in pages if t == reds[title])[2]
             if p is None or p.rawtext != text:
                 bad.append((title, revid, text, None if p is None else p.rawtext))
         if d["sig"].startswith("lookup") and not bad:
@@ -363,6 +373,13 @@ def replay(cand: dict) -> dict:
             p = nw.get_page(newest[1])
             if p is None or p.rawtext != newest[2]:
                 bad.append((newest[1], "newest", newest[2], None if p is None else p.rawtext))
+        if d["sig"] == "lookup|redirect" and not bad:
+            tgt = d["target"]
+            newest = max((r, t, x) for t, r, x in pages if t == tgt)
+            for src in d.get("redirects") or {}:
+                p = nw.get_page(src)
+                if p is None or p.rawtext != newest[2]:
+                    bad.append((src, "redirect to " + tgt, newest[2], None if p is None else p.rawtext))
         if bad:
             kind = "boundary" if d["sig"].startswith("framing") else d["sig"].split("|")[1]
             return {"reproduced": True, "signature": "C14|" + d["sig"].split("|")[0] + "|" + kind,
